@@ -602,6 +602,188 @@ type vf17Round struct {
 	Writes   [][]int64   `json:"writes"`   // uid -> [f, ss, ws, we, chk]
 	Switches [][]int64   `json:"switches"` // [ss, s, e]: ss became the current publisher between s and e
 	Lives    []*vf17Life `json:"lives"`
+
+	// the shape checks/C40.py feeds to TraceChannels.tla ("every operation completes"): filled by the lock-order rounds
+	LockOrder bool     `json:"lockorder"`
+	Ops       []vf17Op `json:"ops"`
+	Shutdown  vf17Op   `json:"shutdown"`
+	Dump      string   `json:"dump"` // goroutine dump taken when the watchdog fired
+}
+
+// vf17Op: one operation on the stream, stamped from the round's atomic counter; End = 0: it had not returned
+// when the watchdog (10 s after the last operation began) fired.
+type vf17Op struct {
+	ID    int    `json:"id"`
+	Kind  string `json:"kind"`
+	Start int64  `json:"start"`
+	End   int64  `json:"end"`
+	Res   string `json:"res"`
+}
+
+const vf17Watchdog = 10 * time.Second
+
+// vf17LockOrderRound: writers whose every unit CHANGES the H264 / H265 parameter sets (the write path holds
+// Stream.mutex for reading while Stream.updateOutDesc takes outDescMutex for writing) run concurrently with
+// callers of RTSPStream / RTSPSStream / OutDescCopy and with readers being added and removed. Every call is an
+// operation with a start and an end stamp; nothing is judged here.
+func vf17LockOrderRound(run int, seed uint64) *vf17Round {
+	rnd := verifrt.Rand(seed)
+	rd := &vf17Round{Run: run, NF: 2, Q: 8, LockOrder: true, Switches: [][]int64{{1, 0, 0}},
+		Writes: [][]int64{}, Lives: []*vf17Life{}, Ops: []vf17Op{}}
+	var clk atomic.Int64
+	var mu sync.Mutex
+	begin := func(kind string) int {
+		mu.Lock()
+		defer mu.Unlock()
+		rd.Ops = append(rd.Ops, vf17Op{ID: len(rd.Ops) + 1, Kind: kind, Start: clk.Add(1)})
+		return len(rd.Ops) - 1
+	}
+	end := func(i int, res string) {
+		mu.Lock()
+		defer mu.Unlock()
+		rd.Ops[i].End = clk.Add(1)
+		rd.Ops[i].Res = res
+	}
+
+	strm := &Stream{OrigDesc: vf17VideoDesc(2), WriteQueueSize: rd.Q, RTPMaxPayloadSize: 1450, Parent: vf17Log{}}
+	if err := strm.Initialize(); err != nil {
+		rd.Shutdown = vf17Op{Kind: "shutdown", Start: 1, End: 2, Res: "err_other"}
+		return rd
+	}
+	ss := &SubStream{Stream: strm, UseRTPPackets: false}
+	if err := ss.Initialize(); err != nil {
+		rd.Shutdown = vf17Op{Kind: "shutdown", Start: 1, End: 2, Res: "err_other"}
+		return rd
+	}
+	orig := vf17Flat(strm.OrigDesc)
+	nPer := 120 + rnd.IntN(80)
+	stop := make(chan struct{})
+	var wg, bg sync.WaitGroup
+
+	writer := func(f int, wseed uint64) {
+		defer wg.Done()
+		wr := verifrt.Rand(wseed)
+		for i := 0; i < nPer; i++ {
+			v := byte(0xA0 + i%2) // the parameter sets toggle between two values: every unit updates the description
+			var p unit.Payload
+			if f == 0 {
+				p = unit.PayloadH264{{0x67, 0x64, 0x00, 0x1f, v}, {0x68, 0xee, 0x3c, 0x80, v}, {0x65, byte(i)}}
+			} else {
+				p = unit.PayloadH265{{0x40, 1, 0x0c, v}, {0x42, 1, 0x01, v}, {0x44, 1, 0xc1, v}, {0x26, 1, byte(i)}}
+			}
+			o := begin("write")
+			ss.WriteUnit(orig[f].m, orig[f].f, &unit.Unit{PTS: int64(i) * 3000, Payload: p})
+			end(o, "ok")
+			if wr.IntN(6) == 0 {
+				runtime.Gosched()
+			}
+		}
+	}
+	caller := func(kind string, cseed uint64) {
+		defer bg.Done()
+		cr := verifrt.Rand(cseed)
+		for {
+			select {
+			case <-stop:
+				return
+			default:
+			}
+			o := begin(kind)
+			res := "ok"
+			switch kind {
+			case "rtspstream": // no RTSP server: the call fails after it went through the stream's locks
+				if _, err := strm.RTSPStream(nil); err != nil {
+					res = "err_other"
+				}
+			case "rtspsstream":
+				if _, err := strm.RTSPSStream(nil); err != nil {
+					res = "err_other"
+				}
+			case "outdesccopy":
+				strm.OutDescCopy()
+			case "reader":
+				r := &Reader{Parent: vf17Log{}}
+				for f := 0; f < 2; f++ {
+					r.OnData(orig[f].m, orig[f].f, func(*unit.Unit) error { return nil })
+				}
+				strm.AddReader(r)
+				end(o, "ok")
+				time.Sleep(time.Duration(cr.IntN(400)) * time.Microsecond)
+				o = begin("removereader")
+				strm.RemoveReader(r)
+			}
+			end(o, res)
+			if cr.IntN(3) == 0 {
+				time.Sleep(time.Duration(cr.IntN(200)) * time.Microsecond)
+			} else {
+				runtime.Gosched()
+			}
+		}
+	}
+	for _, k := range []string{"rtspstream", "rtspsstream", "outdesccopy", "reader"} {
+		bg.Add(1)
+		go caller(k, rnd.Uint64())
+	}
+	for f := 0; f < 2; f++ {
+		wg.Add(1)
+		go writer(f, rnd.Uint64())
+	}
+	finished := make(chan struct{})
+	go func() {
+		wg.Wait()
+		close(stop)
+		bg.Wait()
+		close(finished)
+	}()
+	// watchdog: as long as operations keep beginning the round is alive; it fires when nothing has begun or
+	// ended for vf17Watchdog
+	last := clk.Load()
+	lastChange := time.Now()
+	hung := false
+	for !hung {
+		select {
+		case <-finished:
+			hung = false
+			goto out
+		case <-time.After(100 * time.Millisecond):
+			if now := clk.Load(); now != last {
+				last, lastChange = now, time.Now()
+			} else if time.Since(lastChange) > vf17Watchdog {
+				hung = true
+			}
+		}
+	}
+out:
+	if hung {
+		buf := make([]byte, 1<<20)
+		n := runtime.Stack(buf, true)
+		if n > 12000 {
+			n = 12000
+		}
+		rd.Dump = string(buf[:n])
+	}
+	sd := vf17Op{Kind: "shutdown", Start: clk.Add(1)}
+	if !hung { // closing a stream whose lock protocol is stuck would only add noise
+		closed := make(chan struct{})
+		go func() {
+			strm.Close()
+			close(closed)
+		}()
+		select {
+		case <-closed:
+			sd.End, sd.Res = clk.Add(1), "ok"
+		case <-time.After(vf17Watchdog):
+		}
+	} else {
+		sd.End, sd.Res = clk.Add(1), "skipped"
+	}
+	mu.Lock()
+	rd.Shutdown = sd
+	ops := make([]vf17Op, len(rd.Ops))
+	copy(ops, rd.Ops) // goroutines that are stuck keep a reference to rd.Ops
+	rd.Ops = ops
+	mu.Unlock()
+	return rd
 }
 
 func vf17StressRound(t *testing.T, run int, seed uint64) *vf17Round {
@@ -860,7 +1042,14 @@ func TestVerif_C17_Stress(t *testing.T) {
 	defer out.Close()
 	rounds := verifrt.Param("ROUNDS", 8)
 	for i := 0; i < rounds; i++ {
-		rd := vf17StressRound(t, i, uint64(1700+i))
+		var rd *vf17Round
+		if i%7 == 6 || (rounds < 7 && i == rounds-1) {
+			rd = vf17LockOrderRound(i, uint64(1700+i))
+		} else {
+			rd = vf17StressRound(t, i, uint64(1700+i))
+			rd.Ops = []vf17Op{}
+			rd.Shutdown = vf17Op{Kind: "shutdown", Start: 1, End: 2, Res: "ok"}
+		}
 		out.Emit(rd)
 	}
 }
